@@ -78,4 +78,26 @@ impl Duration {
     { unimplemented!() }
 }
 
+
+// ---- payment.rs (ASSUMED contracts; source: cw-utils-2.0.0/src/payment.rs)
+pub enum PaymentError { MissingDenom(String), ExtraDenom(String), MultipleDenoms {}, NoFunds {}, NonPayable {} }
+/// must_pay: exactly one coin, non-zero, of the given denom
+pub open spec fn paid_exactly(funds: Seq<Coin>, denom: Seq<char>) -> Option<Uint128> {
+    if funds.len() == 1 && funds[0].amount.0 != 0 && funds[0].denom@ == denom { Some(funds[0].amount) } else { None }
+}
+#[verifier::external_body]
+pub fn must_pay(info: &MessageInfo, denom: &str) -> (r: Result<Uint128, PaymentError>)
+    ensures r is Ok <==> paid_exactly(info.funds@, denom@) is Some,
+            r is Ok ==> Some(r->Ok_0) == paid_exactly(info.funds@, denom@),
+{ unimplemented!() }
+#[verifier::external_body]
+pub fn nonpayable(info: &MessageInfo) -> (r: Result<(), PaymentError>)
+    ensures r is Ok <==> info.funds@.len() == 0
+{ unimplemented!() }
+/// pagination.rs maybe_addr
+#[verifier::external_body]
+pub fn maybe_addr(api: &dyn Api, human: Option<String>) -> (r: StdResult<Option<Addr>>)
+    ensures r is Ok ==> (human is None ==> r->Ok_0 is None) && (human is Some ==> r->Ok_0 is Some && r->Ok_0->Some_0@ == human->Some_0@)
+{ unimplemented!() }
+
 } // verus!
